@@ -293,7 +293,7 @@ package cdcn
 //@   props C12
 //@   safe
 //@   modifies view(this.tokens_)
-//@   hint before call4: token != nil
+//@   hint before call3: token != nil
 //@ func (*scanner_).foundEOF
 //@   props C12
 //@   safe
